@@ -186,11 +186,11 @@ def run(ctx):
     lz.load(L["so"])
     # (M)
     pos = ["MCStarveLzip"] if quick else ["MCStarveLzip", "MCStarveLzma1", "MCStarveXz", "MCStarveBcj"]
-    neg = ["MCStarveLazy"]
+    neg = []
     futs = S6.start_models(pos + neg, module="Starve", workers=1 if quick else 2, timeout=1500)
     # notifications (LZMA_NO_CHECK / UNSUPPORTED_CHECK / GET_CHECK): returned once, then progress resumes (StallBounded);
     # the coder that returns them before advancing its sequence must violate it
-    nfuts = S6.start_models(["MCStarveNote", "MCStarveNoteStuck", "MCStarveStop", "MCStarveStopLazy"], module="MCStarveNote",
+    nfuts = S6.start_models(["MCStarveNote", "MCStarveNoteStuck", "MCStarveStop", "MCStarveStopLazy", "MCStarveLazy"], module="MCStarveNote",
                             workers=1 if quick else 2, timeout=1500)
     # (G)
     items = gen_items(ctx, quick)
@@ -242,7 +242,7 @@ def run(ctx):
         ctx.sample(dict(kind="parser_calls", label=phists[0][0], events=phists[0][1][:5]))
     ctx.sample(dict(kind="grammar_item", item=items["bhdr"][len(items["bhdr"]) // 2]))
     S6.collect_models(ctx, futs, expect_violation=neg)
-    S6.collect_models(ctx, nfuts, expect_violation=["MCStarveNoteStuck", "MCStarveStopLazy"])
+    S6.collect_models(ctx, nfuts, expect_violation=["MCStarveNoteStuck", "MCStarveStopLazy", "MCStarveLazy"])
     ctx.extra["layers"] = {
         "spec_decidable": "status-code sets (StarveDoc.Documented), internal codes never escape, BUF_ERROR liveness and bound: "
                           "model-checked on Starve.tla and required of every recorded call / parser call by TraceSlicing.tla",
